@@ -234,7 +234,14 @@ static void gen(rng &r, const std::string &tier)
     {
         struct { const char *name; int bits; bool sgn; char fmt; } f;
         dfn_info(i, &f.name, &f.bits, &f.sgn, &f.fmt);
-        if (f.bits <= 8)
+        // hex_u4x / bin_u4x call the nibble printers without the harness masking the argument.  Only arguments
+        // below 16 are generated: above that the routines are outside their contract (checks/C07.json assumptions;
+        // theorem print_nibble_total says what the present code does), a table-driven rewrite may read anything
+        // there, and the check must not alarm on it.  `dpr hex_u4x 1f` still works in a replay.
+        if (f.fmt == 'X' || f.fmt == 'B')
+            for (unsigned v = 0; v < 16; v++)
+                P("dpr %s %016llx\n", f.name, (unsigned long long)v);
+        else if (f.bits <= 8)
             for (unsigned v = 0; v < (1u << f.bits); v++)
                 P("dpr %s %016llx\n", f.name, (unsigned long long)extend(v, f.bits, f.sgn));
         else
